@@ -1,5 +1,12 @@
 #!/bin/bash
 # silence check: every quick check under several seeds, from fresh processes, on the unchanged tree
+# background runs (vp run --with-repo) work on a private snapshot of the repository
+if [ -n "${VP_RUN_REPO:-}" ]; then
+  sed -i "s#path = \"/repo\"#path = \"$VP_RUN_REPO\"#" harness/Cargo.toml
+  sed -i "s#cd /repo #cd $VP_RUN_REPO #" setup.sh
+  cp /repo/Cargo.lock "$VP_RUN_REPO/" 2>/dev/null
+  export XSGV_REPO="$VP_RUN_REPO"
+fi
 ./setup.sh >/dev/null 2>&1
 for seed in ${SEEDS:-1 2 3 4 5}; do
   for p in C01 C02 C03 C04 C05 C06 C07 C08 C09 C10 C11 C12 C13 C14 C15 C16; do
